@@ -43,3 +43,12 @@ CHECKS['C17'] = (_SYMX + '; rule-vs-edge obligations with symbolic xi/zeta/delay
 CHECKS['C18'] = (_SYMX + '; repeat-call pairs under a replaying random source; set iteration order as an engine choice on the AST-transformed module; all other entropy sources poisoned',
                  'for every simulator configuration in the bound and every path: a second call with the same draw values consumes the same draws with the same arguments and returns identical terms; no other source of randomness or time is touched; continuous-time simulators give identical outputs under every iteration order of every set (superset of all hash seeds) with string labels',
                  'floats as reals; graphs P3 (K3); event bounds; dict order is insertion order (language guarantee)', 'DESIGN.md 6/C18')
+_ODEX = 'symbolic evaluation of the real ODE code on z3 terms (odex) with a flow stub for the integrator'
+ENGINE['C06'] = 'odex'
+CHECKS['C06'] = (_ODEX + '; row-0 / linspace identities, conservation via identity-or-vanishing-Lie-derivative, monotonicity as sign conditions, all decided by z3',
+                 'for every ODE entry point reachable through the *_from_graph / node-level wrappers on the graphs of the bound, with symbolic tau, gamma, rho, tmin, tmax: times, row 0 (incl. documented full-data series), conservation at an arbitrary flow state and SIR monotonicity on the stated region hold for all parameter values; all consistent initial conditions accepted',
+                 'floats as reals; L5/L6 (integrator = exact flow) trusted; graphs <= 5 nodes, degree support K <= 3 (4); [0,N] range not claimed', 'DESIGN.md 6/C06')
+ENGINE['C20'] = 'symx+odex'
+CHECKS['C20'] = (_SYMX + ' for subsample/get_time_shift on lists with symbolic entries; odex identities and symbolic differentiation for the generating-function helpers and estimate_R0',
+                 'subsample / get_time_shift equal their step-function references for all real-valued entries of lists up to the length bound; psi(1), psi\'(1), psi\'\'(1), the derivative chain and R0 = T<k^2-k>/<k> hold for all symbolic P_k, x, tau, gamma; get_Pk / get_Pnk normalisation on every graph with <= 4 nodes',
+                 'floats as reals; list lengths <= 3 (4); K <= 4 (6)', 'DESIGN.md 6/C20')
